@@ -47,6 +47,14 @@ pub fn j_views(ts: TimeScale, c: i128, leap: &LeapTable, out: &mut Local) {
         v.push(View::F("to_jde_tai_days", e.to_jde_tai_days(), tai + JD1900, NS_DAY));
         v.push(View::F("to_jde_tai_seconds", e.to_jde_tai_seconds(), tai + JD1900, NS_S));
         v.push(View::F("to_jde_tai(Century)", e.to_jde_tai(Unit::Century), tai + JD1900, NPC));
+        {
+            const JN: [&str; 9] = ["to_jde_tai(ns)", "to_jde_tai(us)", "to_jde_tai(ms)", "to_jde_tai(s)", "to_jde_tai(min)", "to_jde_tai(h)", "to_jde_tai(day)", "to_jde_tai(week)", "to_jde_tai(century)"];
+            const MT: [&str; 9] = ["to_mjd_tai(ns)", "to_mjd_tai(us)", "to_mjd_tai(ms)", "to_mjd_tai(s)", "to_mjd_tai(min)", "to_mjd_tai(h)", "to_mjd_tai(day)", "to_mjd_tai(week)", "to_mjd_tai(century)"];
+            for (k, un) in UNITS.iter().enumerate() {
+                v.push(View::F(JN[k], e.to_jde_tai(*un), tai + JD1900, crate::lattice::UNIT_NS[k]));
+                v.push(View::F(MT[k], e.to_mjd_tai(*un), tai + MJD1900, crate::lattice::UNIT_NS[k]));
+            }
+        }
         v.push(View::D("to_tt_since_j2k", e.to_tt_since_j2k(), tt - J2000_S));
         v.push(View::F("to_tt_centuries_j2k", e.to_tt_centuries_j2k(), tt - J2000_S, NPC));
         v.push(View::D("to_jde_tt_duration", e.to_jde_tt_duration(), tt + JD1900));
@@ -66,6 +74,13 @@ pub fn j_views(ts: TimeScale, c: i128, leap: &LeapTable, out: &mut Local) {
             v.push(View::F("to_unix_milliseconds", e.to_unix_milliseconds(), u - unix_zero(), 1_000_000));
             v.push(View::F("to_unix_days", e.to_unix_days(), u - unix_zero(), NS_DAY));
             v.push(View::F("to_unix(Hour)", e.to_unix(Unit::Hour), u - unix_zero(), 3600 * NS_S));
+            // "any unit": the unit-parameterised views in every unit (the other units of the two TAI views follow below)
+            const UN: [&str; 9] = ["to_unix(ns)", "to_unix(us)", "to_unix(ms)", "to_unix(s)", "to_unix(min)", "to_unix(h)", "to_unix(day)", "to_unix(week)", "to_unix(century)"];
+            const MN: [&str; 9] = ["to_mjd_utc(ns)", "to_mjd_utc(us)", "to_mjd_utc(ms)", "to_mjd_utc(s)", "to_mjd_utc(min)", "to_mjd_utc(h)", "to_mjd_utc(day)", "to_mjd_utc(week)", "to_mjd_utc(century)"];
+            for (k, un) in UNITS.iter().enumerate() {
+                v.push(View::F(UN[k], e.to_unix(*un), u - unix_zero(), crate::lattice::UNIT_NS[k]));
+                v.push(View::F(MN[k], e.to_mjd_utc(*un), u + MJD1900, crate::lattice::UNIT_NS[k]));
+            }
             v.push(View::F("to_utc_seconds", e.to_utc_seconds(), u, NS_S));
             v.push(View::F("to_utc_days", e.to_utc_days(), u, NS_DAY));
         }
